@@ -114,11 +114,9 @@ theorem step_measure {s : St} (h : s.halted = false) : (step specs s).measure < 
       have hfm : fr.measure = progSize k + fr.cleanups.length + 4 := by
         simp [Frame.measure, hk, progSize, Stmt.size]; omega
       rw [hfm]
-      split
-      · refine Nat.lt_of_le_of_lt (schedHop_measure _ _ _) ?_
-        simp [framesMeasure, Frame.measure]; omega
-      · refine Nat.lt_of_le_of_lt (schedHop_measure _ _ _) ?_
-        simp [emit, framesMeasure, Frame.measure]; omega
+      simp only []
+      split <;> split <;> (try split) <;>
+        simp [emit, St.measure, framesMeasure, Frame.measure, Ctl.weight, hc] <;> omega
   · -- resume
     rename_i o fr rest hc hf
     have hm : s.measure = 3 * (fr.measure + framesMeasure rest) + 3 := by
